@@ -30,10 +30,10 @@ type pProbe struct {
 	Name    string   `json:"name"`
 	Flavour string   `json:"flavour"` // r | q
 	Ins     []inSpec `json:"ins"`
-	Busy    int64    `json:"busy,omitempty"` // virtual ns spent in every reconcile
-	Late    bool     `json:"late,omitempty"` // registered after Run
+	Busy    int64    `json:"busy,omitempty"`  // virtual ns spent in every reconcile
+	Late    bool     `json:"late,omitempty"`  // registered after Run
 	Defer   bool     `json:"defer,omitempty"` // registered by a "register" step, concurrently with the following writes
-	Fail    bool     `json:"fail,omitempty"` // every reconcile fails (C16: must not affect the others)
+	Fail    bool     `json:"fail,omitempty"`  // every reconcile fails (C16: must not affect the others)
 }
 
 type pWrite struct {
@@ -48,11 +48,11 @@ type pWrite struct {
 }
 
 type pScenario struct {
-	SlowWatch int64 `json:"slow_watch,omitempty"` // virtual ns every watch set up after Run started takes to establish
-	Probes []pProbe `json:"probes"`
-	Cached bool     `json:"cached,omitempty"` // kind n1/T is cached
-	Pre    []pWrite `json:"pre,omitempty"`    // before Run
-	Steps  []pWrite `json:"steps"`
+	SlowWatch int64    `json:"slow_watch,omitempty"` // virtual ns every watch set up after Run started takes to establish
+	Probes    []pProbe `json:"probes"`
+	Cached    bool     `json:"cached,omitempty"` // kind n1/T is cached
+	Pre       []pWrite `json:"pre,omitempty"`    // before Run
+	Steps     []pWrite `json:"steps"`
 }
 
 // slowWatchState delays the establishment of kind watches (a slow or remote state).
@@ -80,13 +80,33 @@ type pBook struct {
 	mu        sync.Mutex
 	lastStart map[string]map[string]int64 // probe -> key ("*" for whole-controller reconciles) -> seq
 	starts    map[string][]string         // probe -> jobs started since last reset ("R:key", "M:key", "*")
+	total     map[string]int              // probe -> jobs started in the whole run
+	storm     map[string]bool             // probes that were started absurdly often (ineffective backoff): parked
 }
 
-func (b *pBook) start(probe, key, job string) {
+// stormLimit is far above what any scenario can legitimately start (restart and requeue backoffs start at hundreds of
+// milliseconds of virtual time and grow); beyond it a probe parks itself so that a zero-delay retry loop cannot spin
+// for ever inside a synctest bubble, and the run reports it.
+const stormLimit = 20000
+
+// start records a job; it reports true when the probe must park itself (retry storm).
+func (b *pBook) start(probe, key, job string) bool {
 	s := b.seq.Add(1)
 
 	b.mu.Lock()
 	defer b.mu.Unlock()
+
+	if b.total == nil {
+		b.total, b.storm = map[string]int{}, map[string]bool{}
+	}
+
+	b.total[probe]++
+
+	if b.total[probe] > stormLimit {
+		b.storm[probe] = true
+
+		return true
+	}
 
 	if b.lastStart[probe] == nil {
 		b.lastStart[probe] = map[string]int64{}
@@ -94,6 +114,21 @@ func (b *pBook) start(probe, key, job string) {
 
 	b.lastStart[probe][key] = s
 	b.starts[probe] = append(b.starts[probe], job)
+
+	return false
+}
+
+func (b *pBook) storms() (out []string) {
+	b.mu.Lock()
+	defer b.mu.Unlock()
+
+	for p := range b.storm {
+		out = append(out, fmt.Sprintf("retry-storm: probe %s was started more than %d times in one scenario: its restart / requeue backoff is not effective", p, stormLimit))
+	}
+
+	sort.Strings(out)
+
+	return out
 }
 
 type pipeProbeR struct {
@@ -129,7 +164,11 @@ func (p *pipeProbeR) Run(ctx context.Context, r controller.Runtime, _ *zap.Logge
 		case <-r.EventCh():
 		}
 
-		p.book.start(p.name, "*", "*")
+		if p.book.start(p.name, "*", "*") {
+			<-ctx.Done()
+
+			return nil
+		}
 
 		if p.busy > 0 {
 			select {
@@ -160,7 +199,11 @@ func (p *pipeProbeQ) Settings() controller.QSettings {
 }
 
 func (p *pipeProbeQ) Reconcile(ctx context.Context, _ *zap.Logger, _ controller.QRuntime, ptr resource.Pointer) error {
-	p.book.start(p.name, ptr.Type()+"/"+ptr.ID(), "R:"+ptr.Type()+"/"+ptr.ID())
+	if p.book.start(p.name, ptr.Type()+"/"+ptr.ID(), "R:"+ptr.Type()+"/"+ptr.ID()) {
+		<-ctx.Done()
+
+		return nil
+	}
 
 	if p.busy > 0 {
 		select {
@@ -549,6 +592,8 @@ func runPipeScenario(t *testing.T, sc pScenario, table bool) (res pResult) {
 
 		quiesce("end")
 
+		res.problems = append(res.problems, book.storms()...)
+
 		cancel()
 		<-done
 		synctest.Wait()
@@ -797,7 +842,7 @@ func TestC05(t *testing.T) {
 		// corpus: by-kind and by-id input on the same kind, the by-id one is dropped later
 		cases = append(cases, c05Case{Kind: "run", Sc: pScenario{
 			Probes: []pProbe{{Name: "c0", Flavour: "r", Ins: []inSpec{{NS: "n1", Typ: "T", Kind: 0}, {NS: "n1", Typ: "T", ID: sp("a"), Kind: 1}}}},
-			Steps: []pWrite{{Op: "create", Typ: "T", ID: "a"}, {Op: "quiesce"}, {Op: "delinput", Probe: "c0", N: 1}, {Op: "quiesce"}, {Op: "create", Typ: "T", ID: "b"}, {Op: "touch", Typ: "T", ID: "a"}},
+			Steps:  []pWrite{{Op: "create", Typ: "T", ID: "a"}, {Op: "quiesce"}, {Op: "delinput", Probe: "c0", N: 1}, {Op: "quiesce"}, {Op: "create", Typ: "T", ID: "b"}, {Op: "touch", Typ: "T", ID: "a"}},
 		}})
 
 		for range tier(120, 3000) {
